@@ -235,7 +235,10 @@ pub fn gen_qt_case(seed: u64, k: u64) -> Value {
 // process level: a real .xlsx through the tx-export-convert binary, with option combinations
 // ---------------------------------------------------------------------------------------------
 pub fn write_xlsx(rows: &[Value], lay: u64, float_cells: bool, path: &std::path::Path) -> Result<(), String> {
-    let rg = build_range(rows, lay, float_cells);
+    write_range_xlsx(&build_range(rows, lay, float_cells), path)
+}
+
+pub fn write_range_xlsx(rg: &Range, path: &std::path::Path) -> Result<(), String> {
     let mut wb = rust_xlsxwriter::Workbook::new();
     let sheet = wb.add_worksheet();
     for (ri, row) in rg.rows().enumerate() {
